@@ -62,8 +62,10 @@ type scenario struct {
 	// canonical Go map orders the run must exhibit (the case is re-run until it does, see runCase)
 	MailFirst bool `json:"mail_first_once"`
 	RevWS     bool `json:"reversed_ws_once"`
-	// Script: if non-empty, the moves are taken from it instead of the PRNG (corpus cases)
+	// Script: if non-empty, the moves are taken from it instead of the PRNG (corpus cases);
+	// Events: attributes of the appended events, in order (the PRNG decides beyond the list)
 	Script []string `json:"script,omitempty"`
+	Events []evDesc `json:"events,omitempty"`
 }
 
 type driver struct {
@@ -98,6 +100,8 @@ type driver struct {
 	invoked, dropsSeen int
 	err                error
 	lastR              *gate
+	ahead              bool
+	lastNotify         istructs.Offset
 	flTwoSeen          bool
 	quiet              bool
 }
@@ -282,7 +286,9 @@ func (d *driver) notify(n istructs.Offset) {
 	d.record(fmt.Sprintf("Notify %d", n), fmt.Sprintf("notify %d", n))
 	if int(n) > len(d.events) {
 		d.tag("notify-ahead")
+		d.ahead = true
 	}
+	d.lastNotify = n
 }
 
 func (d *driver) tick() {
@@ -448,6 +454,9 @@ func (d *driver) releaseP(g *gate, fault int) {
 		d.record(fmt.Sprintf("PPutWS %d %s %s", g.ws, offs(g.offs), verdictCoq(v)), fmt.Sprintf("view PutBatch ws=%d rows=%v %s", g.ws, g.offs, verdictCoq(v)))
 	case "putPos":
 		d.flushGate(g)
+		if len(d.flView) == 0 && len(d.flMail) == 0 {
+			d.tag("position-by-interval")
+		}
 		if v.before == nil {
 			d.lastPos = g.ofs
 			// F21: is a mail of a triggering event up to this position still unsent?
@@ -521,6 +530,9 @@ func (d *driver) moves(drain bool) []move {
 }
 
 func (d *driver) newEvent() evDesc {
+	if n := len(d.events); n < len(d.sc.Events) {
+		return d.sc.Events[n]
+	}
 	e := evDesc{Trig: d.rng.Chance(7, 10), WS: wsids[0]}
 	if d.rng.Chance(2, 5) {
 		e.WS = wsids[1]
@@ -548,8 +560,9 @@ func (d *driver) apply(m move) {
 			case 1:
 				n = istructs.Offset(d.rng.Intn(len(d.events) + 1)) // stale / zero
 			}
-		} else if d.rng.Chance(1, 6) && n > 1 {
-			n = istructs.Offset(1 + d.rng.Intn(int(n))) // an older notification arriving late
+		} else if d.rng.Chance(1, 5) && n > d.lastNotify {
+			// the actualizer may see any of the notifications the command processor sent so far
+			n = d.lastNotify + istructs.Offset(1+d.rng.Intn(int(n-d.lastNotify)))
 		}
 		d.notify(n)
 	case "tick":
@@ -622,16 +635,15 @@ func runOnce(sc scenario, acceptAnyOrder bool) (d *driver, ok bool) {
 			d.check() // what is persisted after every stop
 		}
 	}
-	aborted := d.wrongOrder && !acceptAnyOrder
 	// drain: no more faults; everything notified; timers run out
-	if !aborted && d.err == nil {
-		d.drain()
+	if !(d.wrongOrder && !acceptAnyOrder) && d.err == nil {
+		d.drain(acceptAnyOrder)
 	}
 	d.teardown()
-	return d, !aborted
+	return d, !(d.wrongOrder && !acceptAnyOrder)
 }
 
-func (d *driver) drain() {
+func (d *driver) drain(acceptAnyOrder bool) {
 	d.quiesce()
 	for guard := 0; d.running && d.stopped && guard < 1000; guard++ { // let a stop complete
 		if p := d.find('P'); p != nil {
@@ -648,8 +660,8 @@ func (d *driver) drain() {
 	idle := 0
 	for guard := 0; guard < 5000 && idle < 2 && d.err == nil; guard++ {
 		d.quiesce()
-		if d.wrongOrder {
-			// keep going: the attempt is judged by the caller
+		if d.wrongOrder && !acceptAnyOrder {
+			return // the attempt is discarded by the caller
 		}
 		m := d.pick(true)
 		if m.name == "tick" {
@@ -664,7 +676,8 @@ func (d *driver) drain() {
 		d.apply(m)
 	}
 	d.quiesce()
-	d.quiet = idle >= 2
+	// outside the property's domain (a notification ran ahead of the log) nothing is claimed about the end
+	d.quiet = idle >= 2 && !d.ahead
 	d.check()
 }
 
